@@ -599,10 +599,12 @@ package mcap
 @*/
 
 /*@ func makePrefixedMap
+    tags C14
     safety C14
     ensures len(result) >= 4
     loop 1 invariant maplen >= 0 && len(mapkeys) >= 0
     loop 2 invariant offset >= 4
+    loop 2 invariant [keys-emitted-in-sorted-order] {C13} forall(k, 0, len(mapkeys) - 1, strle(mapkeys[k], mapkeys[k+1]))
 @*/
 
 /*@ func (*Writer).Offset
